@@ -111,6 +111,7 @@ def _case(draw):
         case['path'] = path
         case['value'] = value
         case['break'] = brk
+        case['prefix'] = draw(st.integers(0, 3))
     return case
 
 
@@ -272,6 +273,11 @@ def run_case(case):
     else:
         path, value = case['path'], case['value']
         arg = cmd_string(path, value)
+        # the default tag typed out ('!notnew a.b=1') is the same override; '!new' in front is the documented way to allow a new path
+        prefix = [None, None, '!notnew', '!new'][case.get('prefix', 0)]
+        if prefix:
+            arg = prefix + ' ' + arg
+            labels.add('tag-typed-in-front=' + prefix)
         labels.add('break=' + case['break'])
         if any(isinstance(c, int) for c in path):
             labels.add('index-component')
@@ -285,7 +291,10 @@ def run_case(case):
         from awesomeyaml import Config
         status, got = O.try_call(lambda: Config.build_from_cmdline(''.join(texts), arg))     # one multi-document raw yaml source
         src = f'\nsources:\n' + '\n'.join(texts) + f'\ncommand line: {arg!r}'
-        if missing:
+        if missing and prefix == '!new':
+            # creation is allowed: what is created is outside the statement (an index beyond a list is still an error), nothing to compare
+            labels.add('new-typed-in-front-of-a-missing-path')
+        elif missing:
             labels.add('expect-error')
             if status == 'ok':
                 raise Violation(f'C08: command-line override {arg!r} names a path that does not exist, but the build succeeded with {O.to_builtin(got)!r}{src}')
